@@ -95,8 +95,8 @@ PROPS = {
         level="exploration",
         rule="(a) complete grid of 63 (period P, list latency L, result-consumption delay D) triples: P in {4,10,25} ms x L in P*{0,.5,.9,1,1.1,2,5} x D in P*{0,1,2}, each observed for >= 6 lists and then closed; (b) rapid triples (P 2-30 ms, L 0-5P, D 0-2.5P) with Close() at a generated instant of the list/tick cycle; (c) shutdown (Close or context cancel) while a list with a latency of 2.5-4 s is in flight: the controller must be down within 1 s and the fake must have seen the List call cancelled. L is produced by the fake client sleeping (ctx-aware); D by publishing a watch event just before a list returns whose controller-level filter evaluation sleeps D, so the result waits to be consumed. Both runtime timer modes (GODEBUG asynctimerchan=0 and =1). Oracle from the fake's call record: never two List calls in flight; start(i+1) - return(i) >= 0.9*P; at least the expected number of lists within 10*(1.1P+L+D)+2s (re-checked once with 3x the bound); Close() returns within the wedge bound; no library goroutine left. Non-trivial = L + D > 0.9*P (the timer fires before the previous result is consumed); distinct = (P, L, D, close instant, timer mode).",
         assumptions=["real time: no clock is injectable; only lower bounds on gaps and wedge detection are asserted (load can only lengthen a gap)"],
-        quick=[J("TestC13_Grid", shards=2), J("TestC13_Grid", shards=2, env={"GODEBUG": "asynctimerchan=1"}), J("TestC13_Random", checks=30, shards=8, par=40), J("TestC13_Random", checks=250, shards=16, env={"GODEBUG": "asynctimerchan=1"}, par=40), J("TestC13_CloseDuringSlowList", checks=15, shards=4, par=32), J("TestC13_CloseDuringSlowList", checks=15, shards=2, env={"GODEBUG": "asynctimerchan=1"}, par=32)],
-        thorough=[J("TestC13_Grid", shards=2, count=5), J("TestC13_Grid", shards=2, count=5, env={"GODEBUG": "asynctimerchan=1"}), J("TestC13_Random", checks=600, shards=16, par=40, timeout=2400), J("TestC13_Random", checks=1500, shards=24, env={"GODEBUG": "asynctimerchan=1"}, par=40, timeout=2400), J("TestC13_CloseDuringSlowList", checks=300, shards=8, par=32), J("TestC13_CloseDuringSlowList", checks=300, shards=8, env={"GODEBUG": "asynctimerchan=1"}, par=32)],
+        quick=[J("TestC13_Grid", shards=2), J("TestC13_Grid", shards=2, env={"GODEBUG": "asynctimerchan=1"}), J("TestC13_Random", checks=30, shards=8, par=40), J("TestC13_Random", checks=250, shards=16, env={"GODEBUG": "asynctimerchan=1"}, par=40), J("TestC13_CloseDuringSlowList", checks=15, shards=4, par=32), J("TestC13_CloseDuringSlowList", checks=15, shards=2, env={"GODEBUG": "asynctimerchan=1"}, par=32), J("TestC13_RunsOrStops", checks=60, shards=4, par=32)],
+        thorough=[J("TestC13_Grid", shards=2, count=5), J("TestC13_Grid", shards=2, count=5, env={"GODEBUG": "asynctimerchan=1"}), J("TestC13_Random", checks=600, shards=16, par=40, timeout=2400), J("TestC13_Random", checks=1500, shards=24, env={"GODEBUG": "asynctimerchan=1"}, par=40, timeout=2400), J("TestC13_CloseDuringSlowList", checks=300, shards=8, par=32), J("TestC13_CloseDuringSlowList", checks=300, shards=8, env={"GODEBUG": "asynctimerchan=1"}, par=32), J("TestC13_RunsOrStops", checks=1500, shards=8, par=32)],
     ),
     "C04": dict(
         level="fault_enumeration",
@@ -159,10 +159,10 @@ PROPS = {
     ),
     "C07": dict(
         level="exploration",
-        rule="bounded-exhaustive: all 256 parent contents over 4 keys x {absent, x=1, x=2, unlabeled} x all 512 ordered triples (f1,f2,f3) of an 8-filter family, run as chains f1->f2->f3->f1 of Refilter calls on a real filtered subscription between double-marker barriers, each Refilter checked for the exact multiset of Create/Delete events, identity of retained objects, empty delta for equal filters, and restoration of the view under f1; plus rapid chains on larger universes, deferred and immediate nodes and nodes below a filtered clone with parent traffic in between. Non-trivial = some Refilter of the triple both removes and adds an object, or is to an equal filter with a non-empty cache; distinct = (content, f1, f2, f3) / hash of history.",
+        rule="bounded-exhaustive: all 256 parent contents over 4 keys x {absent, x=1, x=2, unlabeled} x all 512 ordered triples (f1,f2,f3) of an 8-filter family, run as chains f1->f2->f3->f1 of Refilter calls on a real filtered subscription between double-marker barriers, each Refilter checked for the exact multiset of Create/Delete events, identity of retained objects, empty delta for equal filters, and restoration of the view under f1; the same over all ordered pairs of a 15-member composite family (duplicated / permuted / replaced children, empty composites, double negation); plus rapid chains (family filters and generated structurally-nearby filters) on larger universes, deferred and immediate nodes and nodes below a filtered clone with parent traffic in between. Non-trivial = some Refilter of the triple both removes and adds an object, or is to an equal filter with a non-empty cache; distinct = (content, f1, f2, f3) / hash of history.",
         assumptions=["events are collected between two double-marker barriers; no parent event is in flight during a checked Refilter (the property's premise)"],
-        quick=[J("TestC07_Enum", shards=16), J("TestC07_Random", checks=600, shards=2)],
-        thorough=[J("TestC07_Enum", shards=16), J("TestC07_Random", checks=15000, shards=8, timeout=1800)],
+        quick=[J("TestC07_Enum", shards=16), J("TestC07_EnumComposite", shards=8), J("TestC07_Random", checks=600, shards=2)],
+        thorough=[J("TestC07_Enum", shards=16), J("TestC07_EnumComposite", shards=16), J("TestC07_Random", checks=15000, shards=8, timeout=1800)],
     ),
     "C06": dict(
         level="exploration",
@@ -204,13 +204,13 @@ PROPS = {
         rule="pairs of filter terms (all constructors incl. typed workload filters, depth <= 3): rapid pairs biased to 'same constructor, nearby / permuted / rebuilt arguments', plus all ordered pairs of enumerated depth<=1 terms; for every pair reported equal by FiltersEqual or Equals the real Accept of both sides is compared on the whole 250+ object universe. Non-trivial = the pair is reported equal (the only cases in which soundness can fail); distinct = distinct rendering of the ordered pair.",
         assumptions=["soundness is judged on the finite object universe (3 ns x 3 names x 16 label maps of pods, pods with node names, services with selectors, events, two foreign kinds)",
                      "workload sources have distinct namespace/name, as in a real cluster"],
-        quick=[J("TestC17_Random", checks=30000), J("TestC17_Enum")],
-        thorough=[J("TestC17_Random", checks=200000, shards=16), J("TestC17_Enum", shards=16, timeout=1800), J("FuzzC17", fuzztime="60s", timeout=600)],
+        quick=[J("TestC17_Random", checks=30000), J("TestC17_Enum"), J("TestC17_LabelSets")],
+        thorough=[J("TestC17_Random", checks=200000, shards=16), J("TestC17_Enum", shards=16, timeout=1800), J("TestC17_LabelSets", shards=4), J("FuzzC17", fuzztime="60s", timeout=600)],
     ),
     "C18": dict(
         level="exploration",
         rule="rapid-generated filter terms (depth <= 3) over the filter package's constructors evaluated on generated slices of the 3ns x 3names x 16 label-map universe, plus enumerated terms against the complete universe; compared with an independent evaluator. Non-trivial = term of depth >= 2 containing a partial NSName entry or a set-based selector requirement; distinct = distinct term rendering.",
-        assumptions=["label keys/values restricted to the valid universe x,y / 1,2,3 (filter.LabelSelector panics on invalid selectors by contract)",
+        assumptions=["label keys/values restricted to the valid universe x,y / 1,2,'' (empty string) (filter.LabelSelector panics on invalid selectors by contract)",
                      "NSName entries with both fields empty are outside the contract and never generated"],
         quick=[J("TestC18_Random", checks=40000), J("TestC18_Enum")],
         thorough=[J("TestC18_Random", checks=150000, shards=16), J("TestC18_Enum", shards=16), J("FuzzC18", fuzztime="60s", timeout=600)],
